@@ -205,13 +205,36 @@ def _outcome(fn):
         raise
 
 
+def pread(x, what):
+    """value of a high-level result, read through the independent evaluator and cross-checked with ak.to_list.  Unlike pcommon.read a
+    ValueError / RuntimeError raised while walking the result propagates: for a lazy result that is the deferred outcome of the operation"""
+    A = P.ak()
+    from akshim import layout as L
+    lay = x
+    if isinstance(x, (A.Array, A.Record)):
+        lay = x.layout
+    if isinstance(lay, A.partition.PartitionedArray):
+        lay = lay.toContent()
+    if not isinstance(lay, L.Content):
+        return P.pyvalue(x)
+    try:
+        v = D.value_of(lay)[1]
+    except M.Invalid as e:
+        raise Violation("unreadable:" + what, "result of %s cannot be evaluated: %s" % (what, e))
+    if isinstance(x, (A.Array, A.Record)):
+        pv = P.pyvalue(A.to_list(x))
+        if not M.same_value(pv, v):
+            raise Violation("tolist:" + what, "ak.to_list of the result of %s differs from its buffers read directly" % what, expected=M.jsonable(v), observed=M.jsonable(pv))
+    return v
+
+
 def pattempt(fn, what):
     """(kind, message, value, result): the operation followed by a complete read of its result"""
     try:
         kind, res = _outcome(fn)
         if kind != "ok":
             return kind, res, None, None
-        kind2, val = _outcome(lambda: P.read(res, what, check_valid=False)[1])
+        kind2, val = _outcome(lambda: pread(res, what))
         if kind2 != "ok":
             return kind2, val, None, None
         return "ok", None, val, res
@@ -421,7 +444,7 @@ def run_ppartition(case):
     nonempty = sum(1 for d in pieces if M.length_of(d) > 0)
     if not isinstance(part.layout, A.partition.PartitionedArray):
         raise Violation("ppartition:construction", "ak.partitioned did not make a PartitionedArray", observed=type(part.layout).__name__)
-    got = P.read(part, "ak.partitioned")[1]
+    got = pread(part, "ak.partitioned")
     if not M.same_value(got, vals):
         raise Violation("ppartition:value|construction", "ak.partitioned differs from the concatenated value", expected=M.jsonable(vals), observed=M.jsonable(got))
     esrc, psrc = {-1: eager}, {-1: part}
